@@ -417,6 +417,41 @@ fn run_one(text: &str) {
                     _ => panic!("unsupported metric pair"),
                 }
             }
+            "simd" => {
+                // kernel=dot|euclid n=N : the dispatcher on one-hot and small-integer inputs, where f32
+                // arithmetic is exact, against the definition computed in u64
+                let n: usize = kv(&tok, "n").unwrap().parse().unwrap();
+                let kernel = kv(&tok, "kernel").unwrap();
+                let run = |a: &[f32], b: &[f32]| -> f32 {
+                    let ua = UnalignedVector::<f32>::from_slice(a);
+                    let ub = UnalignedVector::<f32>::from_slice(b);
+                    if kernel == "dot" {
+                        crate::spaces::simple::dot_product(&ua, &ub)
+                    } else {
+                        crate::spaces::simple::euclidean_distance(&ua, &ub)
+                    }
+                };
+                let a: Vec<f32> = (0..n).map(|i| 1.0 + (i % 13) as f32).collect();
+                let b: Vec<f32> = (0..n).map(|i| 1.0 + ((i * 7) % 11) as f32).collect();
+                let want: f32 = (0..n)
+                    .map(|i| if kernel == "dot" { a[i] * b[i] } else { (a[i] - b[i]) * (a[i] - b[i]) })
+                    .sum();
+                let got = run(&a, &b);
+                if got != want {
+                    verdict.push(format!("{kernel} kernel, length {n}: got {got}, the definition gives {want}"));
+                }
+                for hot in 0..n {
+                    let mut x = vec![0.0f32; n];
+                    x[hot] = 3.0;
+                    let y: Vec<f32> = if kernel == "dot" { (0..n).map(|i| if i == hot { 5.0 } else { 7.0 }).collect() } else { vec![0.0; n] };
+                    let want = if kernel == "dot" { 15.0 } else { 9.0 };
+                    let got = run(&x, &y);
+                    if got != want {
+                        verdict.push(format!("{kernel} kernel, length {n}, one-hot lane {hot}: got {got}, expected {want}"));
+                        break;
+                    }
+                }
+            }
             "expect_buckets_within" => {
                 let cap: u64 = tok[1].parse().unwrap();
                 for r in raw.iter(&wtxn).unwrap() {
